@@ -53,6 +53,8 @@ def alphabet():
     # flags: a = array, u = unit, d = descr, v = value
     ops += [["update_ix", 0, "a"], ["update_ix", -1, "udv"], ["update_ix", 4, "a"]]
     ops += [["update_mnem", "A:2", "au"], ["update_mnem", "B", "a"], ["update_mnem", "zz", "a"]]
+    # metadata set to EMPTY strings (flag E): an update, not "no change"
+    ops += [["update_ix", 0, "E"], ["update_mnem", "B", "aE"], ["update_ix", -1, "E"]]
     ops += ALIAS_OPS[1:]
     ops += [["setitem_curve", "A", "A"], ["setitem_curve", "B", "B"], ["setitem_curve", "A", "B"],
             ["setitem_curve", "UNKNOWN", ""]]
@@ -95,8 +97,8 @@ def with_values(seq):
             out.append([k, op[1], [op[2], useful(op[2]), "u%d" % c, "v%d" % c, "d%d" % c, arr(c, n)], op[3]])
         elif k in ("update_ix", "update_mnem"):
             f = op[2]
-            out.append([k, op[1], arr(c, n) if "a" in f else None, ("U%d" % c) if "u" in f else None,
-                        ("D%d" % c) if "d" in f else None, ("V%d" % c) if "v" in f else None])
+            out.append([k, op[1], arr(c, n) if "a" in f else None, "" if "E" in f else ("U%d" % c) if "u" in f else None,
+                        "" if "E" in f else ("D%d" % c) if "d" in f else None, "" if "E" in f else ("V%d" % c) if "v" in f else None])
         elif k == "update_both":
             f = op[3]
             out.append(["update_ix", op[2], arr(c, n) if "a" in f else None, ("U%d" % c) if "u" in f else None,
